@@ -619,6 +619,8 @@ class Randomizer(RandIF):
                 randomize_done(srcinfo, solve_info)
             for fm in field_model_l:
                 ConstraintOverrideRollbackVisitor.rollback(fm)
+                # Solver handles must not outlive the call, however it ends
+                fm.dispose()
 
         visited = [] 
         for fm in field_model_l:
